@@ -10,3 +10,4 @@ from . import plugins_ops  # noqa: F401
 from . import generic  # noqa: F401
 from . import runtime  # noqa: F401
 from . import options  # noqa: F401
+from . import tables  # noqa: F401
